@@ -16,6 +16,10 @@ demo=demos[0]
 head=open(demo).read()[:3000]
 m=re.search(r'copy this file to\s+(\S+)',head) or re.search(r'[Pp]lace(?:ment|d)?[^\n]*?\s(\S+_test\.go|\S+/main\.go)',head)
 place=m.group(1).rstrip('.,)') if m else None
+if not place:
+    m=re.search(r'(?:[Pp]lace|[Cc]opy|[Pp]ut)\s+(?:this file\s+)?(?:in|into|to|under)\s+`?(\S+?/)`?[\s,(]',head)
+    place=(m.group(1)+'zz_seed_demo_test.go') if m else None
+if place and place.endswith('/'): place+='zz_seed_demo_test.go'
 m2=re.search(r'^\s*//\s*(go (?:test|run) [^\n]+)',head,re.M)
 cmd=m2.group(1).strip() if m2 else None
 res={'seed':sd,'demo':demo,'place':place,'cmd':cmd}
